@@ -30,6 +30,12 @@ pub struct ParamCfg {
     pub max_ack_delay_ms: u64,
     pub datagram: u32,
     pub mtu: usize,
+    /// server certificate repeated this many times in its chain (size of the server's first flight)
+    pub cert_repeat: usize,
+    /// extra ALPN entries offered by the client (size of its Initial packet, hence of the server's credit)
+    pub alpn_pad: usize,
+    /// the client trusts an unrelated CA (the handshake fails with a TLS alert)
+    pub wrong_ca: bool,
 }
 
 impl Default for ParamCfg {
@@ -44,6 +50,9 @@ impl Default for ParamCfg {
             max_ack_delay_ms: 25,
             datagram: 0,
             mtu: 1500,
+            cert_repeat: 1,
+            alpn_pad: 0,
+            wrong_ca: false,
         }
     }
 }
@@ -52,7 +61,8 @@ impl ParamCfg {
     pub fn to_json(&self) -> Value {
         json!({"max_data": self.max_data, "stream_data": self.stream_data, "streams_bidi": self.streams_bidi,
                "streams_uni": self.streams_uni, "idle_client_ms": self.idle_client_ms, "idle_server_ms": self.idle_server_ms,
-               "max_ack_delay_ms": self.max_ack_delay_ms, "datagram": self.datagram, "mtu": self.mtu})
+               "max_ack_delay_ms": self.max_ack_delay_ms, "datagram": self.datagram, "mtu": self.mtu,
+               "cert_repeat": self.cert_repeat, "alpn_pad": self.alpn_pad, "wrong_ca": self.wrong_ca})
     }
 
     pub fn from_json(v: &Value) -> Self {
@@ -68,6 +78,9 @@ impl ParamCfg {
             max_ack_delay_ms: g("max_ack_delay_ms", d.max_ack_delay_ms),
             datagram: g("datagram", 0) as u32,
             mtu: g("mtu", 1500) as usize,
+            cert_repeat: g("cert_repeat", 1) as usize,
+            alpn_pad: g("alpn_pad", 0) as usize,
+            wrong_ca: v.get("wrong_ca").and_then(|x| x.as_bool()).unwrap_or(false),
         }
     }
 
@@ -346,6 +359,10 @@ pub fn run_with(spec: &Spec, hook: Option<NetHook>) -> Outcome {
             log: spec.log,
             with_qlog: spec.with_qlog,
             mtu: spec.params.mtu,
+            cert_repeat: spec.params.cert_repeat,
+            client_alpn_pad: spec.params.alpn_pad,
+            client_wrong_ca: spec.params.wrong_ca,
+            ..Default::default()
         };
         let w = World::new_with(spec.seed, cfg, hook).await;
         *holder2.lock().unwrap() = Some((w.net.clone(), w.events.clone()));
